@@ -107,6 +107,8 @@ type relGen struct {
 	refCol  string      // join column of the other side
 	inV1    bool
 	nonPK   bool
+	bt      bool      // a belongs-to relation instead: fk is the foreign key column of the model's own table
+	fk      *fieldGen // (belongs-to) the foreign key field
 }
 
 var keyKinds = []goKind{
@@ -168,6 +170,10 @@ func (m *model) genRelations(r *core.Rand, free []nameCol) {
 	for k := 0; k < n && len(free) > 0; k++ {
 		t := targets[ts[k]]
 		rg := &relGen{tgt: t, join: m.table + "_" + t.table, inV1: r.Chance(1, 4)}
+		if r.Chance(1, 4) {
+			m.genBelongsTo(r, rg)
+			continue
+		}
 		var tags, fks, jfks []string
 		tags = append(tags, "many2many:"+rg.join)
 		feat := "m2m:"
@@ -206,6 +212,40 @@ func (m *model) genRelations(r *core.Rand, free []nameCol) {
 		m.fields = append(m.fields, rg.f)
 		m.rels = append(m.rels, rg)
 	}
+}
+
+// genBelongsTo: the model gains a foreign key column (pointer kind, index tag at times) and a belongs-to
+// relation to the declared type, with gorm's default names (Badge *Badge + BadgeID *uint) or with names
+// of its own (foreignKey:HomeBadgeKey, references:Code for a non-primary unique key of the other side).
+// In v2 this adds a column AND a foreign key constraint to the populated table.
+func (m *model) genBelongsTo(r *core.Rand, rg *relGen) {
+	t := rg.tgt
+	rg.bt = true
+	keyT, _ := t.typ.FieldByName(t.refKey)
+	relName, fkName := t.name, t.name+t.refKey
+	var tags []string
+	if t.ref != "" || r.Bool() {
+		relName, fkName = "Home"+t.name, "Home"+t.name+"Key"
+		tags = append(tags, "foreignKey:"+fkName)
+		if t.ref != "" {
+			tags = append(tags, "references:"+t.ref)
+		}
+	}
+	col := schema.NamingStrategy{}.ColumnName("", fkName)
+	fk := &fieldGen{goName: fkName, snake: col, col: col, kind: goKind{"*" + keyT.Type.String(), reflect.PtrTo(keyT.Type)}, inV1: rg.inV1}
+	fk.class, fk.wrap = classOf(fk.kind.typ)
+	if r.Bool() {
+		tag, feat := m.indexTag(r, fk, !rg.inV1, false)
+		fk.tags1, fk.feats = []string{tag}, []string{feat}
+	}
+	rg.fk = fk
+	feat := "bt:" + strings.Join(fk.feats, ",") + "->" + t.name
+	if len(tags) > 0 {
+		feat += ":named"
+	}
+	rg.f = &fieldGen{goName: relName, kind: goKind{"*" + t.name, reflect.PtrTo(t.typ)}, inV1: rg.inV1, rel: rg, tags1: tags, feats: []string{feat}}
+	m.fields = append(m.fields, fk, rg.f)
+	m.rels = append(m.rels, rg)
 }
 
 func (m *model) targetTexts() []string {
@@ -287,6 +327,12 @@ func (x *hist) resolveJoins(t reflect.Type, v2 bool) {
 			continue
 		}
 		rel := stmt.Schema.Relationships.Relations[rg.f.goName]
+		if rg.bt {
+			if rel == nil || rel.Type != schema.BelongsTo || len(rel.References) != 1 || rel.References[0].ForeignKey.DBName != rg.fk.col || rel.References[0].PrimaryKey.DBName != rg.tgt.refCol {
+				panic(fmt.Sprintf("c20 harness: %s is not the belongs-to relation over %s of the parsed model", rg.f.goName, rg.fk.col))
+			}
+			continue
+		}
 		if rel == nil || rel.Type != schema.Many2Many || rel.JoinTable == nil {
 			panic(fmt.Sprintf("c20 harness: %s is not a many2many relation of the parsed model", rg.f.goName))
 		}
@@ -360,8 +406,6 @@ func (rg *relGen) traits(v2 bool) (t keyTraits) {
 
 func (t keyTraits) cause() string {
 	switch {
-	case t.two && t.blank:
-		return "key-field-with-two-index-settings+blank-behind-setting-name"
 	case t.two:
 		return "key-field-with-two-index-settings"
 	case t.blank:
@@ -379,7 +423,7 @@ func (x *hist) migrateErrorClass(err error, v2 bool) string {
 	}
 	msg := err.Error()
 	for _, rg := range x.m.rels {
-		if !v2 && !rg.inV1 {
+		if (!v2 && !rg.inV1) || rg.bt {
 			continue
 		}
 		t := rg.traits(v2)
@@ -467,6 +511,9 @@ func (x *hist) joinDDL() map[string][]string {
 		return out
 	}
 	for _, rg := range x.m.rels {
+		if rg.bt {
+			continue
+		}
 		rows, _ := vdb.RowMaps(x.h.SQL, "SELECT sql FROM sqlite_master WHERE tbl_name = ? AND sql IS NOT NULL ORDER BY type DESC, name", rg.join)
 		for _, r := range rows {
 			out[rg.join] = append(out[rg.join], fmt.Sprint(r["sql"]))
@@ -489,6 +536,15 @@ func (x *hist) checkJoins(v2 bool, ddl []string) bool {
 		if !v2 && !rg.inV1 {
 			continue
 		}
+		if rg.bt {
+			if !setOf(vdb.Tables(x.h.SQL))[rg.tgt.table] {
+				missing = append(missing, "table "+rg.tgt.table+" (other side of relation "+rg.f.goName+")")
+			}
+			if !fkList(x.h, x.table)[rg.fk.col+"->"+rg.tgt.table] {
+				missing = append(missing, "foreign key "+x.table+"."+rg.fk.col+"->"+rg.tgt.table+" (relation "+rg.f.goName+")")
+			}
+			continue
+		}
 		mi, re, ca := x.checkJoin(rg, v2)
 		missing, refused = append(missing, mi...), append(refused, re...)
 		if len(re) > 0 {
@@ -496,7 +552,7 @@ func (x *hist) checkJoins(v2 bool, ddl []string) bool {
 		}
 	}
 	if len(missing) > 0 {
-		x.violation(ver+"_join_table_incomplete", map[string]interface{}{"missing": missing, "schema_changing_statements": ddl, "join_table_ddl": x.joinDDL()})
+		x.violation(ver+"_relation_object_missing", map[string]interface{}{"missing": missing, "schema_changing_statements": ddl, "join_table_ddl": x.joinDDL()})
 		return false
 	}
 	if len(refused) > 0 {
@@ -563,6 +619,14 @@ func (x *hist) relationRoundTrip(name2 string) {
 	first := map[*relGen]reflect.Value{}
 	for i, rg := range x.m.rels {
 		f := rec.Elem().FieldByName(rg.f.goName)
+		if rg.bt {
+			// the foreign key is left to gorm: it comes from the nested record
+			fkf := rec.Elem().FieldByName(rg.fk.goName)
+			fkf.Set(reflect.Zero(fkf.Type()))
+			f.Set(newTarget(rg.tgt, 10*i+1, rg.tgt.name+" one"))
+			desc = append(desc, fmt.Sprintf("%s: nil, %s: &%s{new}", rg.fk.goName, rg.f.goName, rg.tgt.name))
+			continue
+		}
 		a, b := newTarget(rg.tgt, 10*i+1, rg.tgt.name+" one"), newTarget(rg.tgt, 10*i+2, rg.tgt.name+" tw'o")
 		f.Set(reflect.Append(reflect.Append(f, a.Elem()), b.Elem()))
 		desc = append(desc, fmt.Sprintf("%s: 2 new %s", rg.f.goName, rg.tgt.name))
@@ -575,21 +639,35 @@ func (x *hist) relationRoundTrip(name2 string) {
 		return
 	}
 	pre, _ := x.sel()
+	w, args := pkWhere(x.l2, rec.Elem())
 	for _, rg := range x.m.rels {
 		f := rec.Elem().FieldByName(rg.f.goName)
+		pre = pre.Preload(rg.f.goName)
+		if rg.bt {
+			first[rg] = f.Elem()
+			rows, err := vdb.RowMaps(x.h.SQL, "SELECT t.name AS n FROM `"+rg.tgt.table+"` t WHERE t.`"+rg.tgt.refCol+"` = (SELECT `"+rg.fk.col+"` FROM `"+x.table+"` WHERE "+w+")", args...)
+			if err != nil || len(rows) != 1 || fmt.Sprint(rows[0]["n"]) != rg.tgt.name+" one" {
+				problems = append(problems, fmt.Sprintf("raw: %s JOIN %s over %s for the created record: %v %v, created with %q", x.table, rg.tgt.table, rg.fk.col, rows, err, rg.tgt.name+" one"))
+			}
+			continue
+		}
 		first[rg] = f.Index(0)
 		want := []string{rg.tgt.name + " one", rg.tgt.name + " tw'o"}
 		if got := x.joinNames(rg, rec.Elem()); !same(got, want) {
 			problems = append(problems, fmt.Sprintf("raw: %s JOIN %s for the created record: %q, created with %q", rg.join, rg.tgt.table, got, want))
 		}
-		pre = pre.Preload(rg.f.goName)
 	}
 	out := reflect.New(x.t2)
-	w, args := pkWhere(x.l2, rec.Elem())
 	if err := pre.Where(w, args...).First(out.Interface()).Error; err != nil {
 		problems = append(problems, fmt.Sprintf("Preload(..).Where(%q, %v).First: %v", w, args, err))
 	} else {
 		for _, rg := range x.m.rels {
+			if rg.bt {
+				if g := out.Elem().FieldByName(rg.f.goName); g.IsNil() || g.Elem().FieldByName("Name").String() != rg.tgt.name+" one" || out.Elem().FieldByName(rg.fk.goName).IsNil() {
+					problems = append(problems, fmt.Sprintf("Preload(%q).First returned %s=%v %s=%+v, created with a nested %q", rg.f.goName, rg.fk.goName, out.Elem().FieldByName(rg.fk.goName).Interface(), rg.f.goName, g.Interface(), rg.tgt.name+" one"))
+				}
+				continue
+			}
 			want := []string{rg.tgt.name + " one", rg.tgt.name + " tw'o"}
 			if got := namesOf(out.Elem().FieldByName(rg.f.goName)); !same(got, want) {
 				problems = append(problems, fmt.Sprintf("Preload(%q).First returned %q, created with %q", rg.f.goName, got, want))
@@ -609,6 +687,9 @@ func (x *hist) relationRoundTrip(name2 string) {
 			problems = append(problems, fmt.Sprintf("First(old row %v): %v", conds, err))
 		} else {
 			for i, rg := range x.m.rels {
+				if rg.bt {
+					continue
+				}
 				fresh := newTarget(rg.tgt, 10*i+3, rg.tgt.name+" three")
 				shared := reflect.New(rg.tgt.typ)
 				shared.Elem().Set(first[rg])
